@@ -13,7 +13,7 @@ fn fwd(op: &Op, _ctx: &dyn Context, operands: &mut dyn CoordinateSet) -> usize {
     // Nothing to do? (only the null grid given. Without it, a point is outside of all
     // of the no grids we have, and is handled as such below)
     if grids.is_empty() && use_null_grid {
-        return n;
+        return nothing_but_the_null_grid(operands);
     }
 
     for i in 0..n {
@@ -45,6 +45,21 @@ fn fwd(op: &Op, _ctx: &dyn Context, operands: &mut dyn CoordinateSet) -> usize {
     successes
 }
 
+// With nothing but the null grid every tuple passes unchanged - except those
+// at a NaN position, which is not a position the null grid can answer for
+fn nothing_but_the_null_grid(operands: &mut dyn CoordinateSet) -> usize {
+    let mut successes = 0_usize;
+    for i in 0..operands.len() {
+        let coord = operands.get_coord(i);
+        if coord[0].is_nan() || coord[1].is_nan() {
+            operands.set_coord(i, &Coor4D::nan());
+            continue;
+        }
+        successes += 1;
+    }
+    successes
+}
+
 // ----- I N V E R S E --------------------------------------------------------------
 
 fn inv(op: &Op, _ctx: &dyn Context, operands: &mut dyn CoordinateSet) -> usize {
@@ -57,7 +72,7 @@ fn inv(op: &Op, _ctx: &dyn Context, operands: &mut dyn CoordinateSet) -> usize {
     // Nothing to do? (only the null grid given. Without it, a point is outside of all
     // of the no grids we have, and is handled as such below)
     if grids.is_empty() && use_null_grid {
-        return n;
+        return nothing_but_the_null_grid(operands);
     }
 
     'points: for i in 0..n {
